@@ -305,6 +305,9 @@ def build(seed, tier, focus='all'):
     root([field("max_volume", V), field("other", O)], allow_unknown=True, cdefault="trait", rename_all="camelCase")
     # other scalar types, nesting, enums, maps
     root([field("level", U), field("on", B), field("maybe", O)])
+    # a custom converter on a type that has a value-for-absent, and on a flag
+    root([field("maybe", O, with_="path"), field("other", O, with_="closure", rename="o2"), field("name", V)])
+    root([field("maybe", O, with_="path", default="fn"), field("quiet", F)], cdefault="trait")
     root([field("level", U, default="fn"), field("on", B, default="trait")])
     root([field("inner", ty("recv", leaf)), field("other", O)])
     root([field("inner", ty("recv", leaf_req2)), field("second", ty("recv", leaf), default="trait")])
@@ -330,6 +333,10 @@ def build(seed, tier, focus='all'):
     flat_nest = c.struct([field("parent_opt", ty("recv", leaf_req2)), field("wide", U, default="trait")])
     root([field("blast", V, default="trait"), field("pq", O), field("rest", ty("recv", flat_nest), flatten=True)], max_items=2)
     root([field("width_max", O), field("hidden_one", V, skip=True), field("rest", ty("recv", flat_mid), flatten=True)], max_items=2)
+    # three flatten levels whose names are all close to each other (the best match sits in the middle)
+    chain_inner = c.struct([field("max_entries", O), field("skip_if", O)])
+    chain_mid = c.struct([field("max_retries", O), field("rest", ty("recv", chain_inner), flatten=True)])
+    root([field("max_tries", O), field("skip", O), field("rest", ty("recv", chain_mid), flatten=True)], max_items=2)
     # --- element-level roots --------------------------------------------------------------------
     for i, tr in enumerate(ELEMENT_TRAITS):
         kw = dict(trait=tr, attr_names=["x"], max_items=3, max_attrs=3)
@@ -344,6 +351,10 @@ def build(seed, tier, focus='all'):
                  attrs_field="plain", magic_ident=True, rename_all="camelCase")
     root([field("name", V), field("rest", ty("recv", flat_inner), flatten=True)], trait="FromDeriveInput",
          attr_names=["x"], max_items=3, max_attrs=2)
+    # marker receivers: `attributes(..)` but no ordinary field at all
+    for tr in ("FromDeriveInput", "FromVariant", "FromTypeParam"):
+        root([], trait=tr, attr_names=["x"], forward="all", attrs_field="plain", magic_ident=True, max_items=2, max_attrs=3)
+    root([], trait="FromField", attr_names=["x", "y"], forward="only", forward_names=["doc"], attrs_field="plain", max_items=1, max_attrs=3)
     # nothing read, nothing forwarded, yet an `attrs` member
     root([field("max_volume", V, default="trait")], trait="FromDeriveInput", attr_names=[], forward="empty", attrs_field="plain",
          max_items=1, max_attrs=2)
@@ -498,6 +509,11 @@ def misspell(n, rng):
         outs.add(n[:i] + "x" + n[i + 1:])
     outs.add(n + "s")
     outs.add(n + "_x")
+    if len(n) > 5:
+        outs.add(n[:-3])          # three characters shorter / longer: the outer edge of the edit-distance range
+    outs.add(n + "ped")
+    if n.endswith("ies"):
+        outs.add(n[:-3] + "y")
     return [o for o in outs if o and o != n and writable(o) and o[0].isalpha()]
 
 
@@ -619,10 +635,11 @@ def darling_opts_field(d, f):
         o.append("multiple")
     if f["flatten"]:
         o.append("flatten")
+    wfn = "w_opt" if f["ty"]["k"] == "opt" else "w_val"
     if f["with"] == "path":
-        o.append("with = w_val")
+        o.append("with = %s" % wfn)
     if f["with"] == "closure":
-        o.append("with = |m| w_val(m)")
+        o.append("with = |m| %s(m)" % wfn)
     if f["transform"] == "map":
         o.append('map = "m_val"')
     if f["transform"] == "and_then":
